@@ -402,6 +402,53 @@ func init() {
 			c.describe("C11.c", "flow: cluster plans return through addOrderLimitOffset with HAVING in between (see C09.c, C08.b)")
 			ruleC09c(c, "C11.c")
 			ruleC08b(c, "C11.c")
-		}},
+		}, func(c *Ctx) { ruleC11d(c, "C11.d") }},
 	})
+}
+
+// ruleC11d: the partition-side plan computes every named group-by dimension.
+func ruleC11d(c *Ctx, rule string) {
+	c.describe(rule, "dom: a query that names group-by dimensions (GROUP BY …, expr AS name) is planned with a group-by stage even when it also groups by * — otherwise derived dimensions such as the _crosstab column that planClusterNonPushdown adds to partition queries are never computed")
+	pl := c.need(rule, "z/planner.planLocal")
+	if pl == nil {
+		return
+	}
+	gb := callsTo(pl, "z/planner.addGroupBy")
+	ft := callsTo(pl, "z/core.Flatten")
+	if len(gb) != 1 || len(ft) != 1 {
+		c.undecided(rule, "planLocal group-by", pl.Pos(), "expected one addGroupBy and one Flatten call")
+		return
+	}
+	isNamed := func(v ssa.Value) bool {
+		b, ok := v.(*ssa.BinOp)
+		if !ok {
+			return false
+		}
+		if (b.Op == token.GTR || b.Op == token.NEQ) && isCallValue(b.X, "builtin len") {
+			if k, isK := constInt(b.Y); isK && k == 0 {
+				return dependsOn(b.X, func(x ssa.Value) bool { return isFieldLoad(x, "z/sql.Query.GroupBy") })
+			}
+		}
+		return false
+	}
+	found := false
+	for _, ci := range findIfs(pl, isNamed) {
+		if reach([]*ssa.BasicBlock{ci.i.Block()}, nil, nil)[gb[0].Block()] {
+			found = true
+		}
+	}
+	for _, in := range instrs(pl) {
+		if ph, ok := in.(*ssa.Phi); ok {
+			for _, e := range ph.Edges {
+				if isNamed(e) {
+					found = true
+				}
+			}
+		}
+	}
+	if found {
+		c.ok(rule, "planLocal: named group-by dimensions force the group-by", gb[0].Pos(), "len(query.GroupBy) > 0 is among the conditions that add the group-by stage")
+	} else {
+		c.bad(rule, "planLocal: named group-by dimensions force the group-by", gb[0].Pos(), "a query with GROUP BY *, <expr> AS <name> is planned without a group-by stage (needsGroupBy ignores len(query.GroupBy)): on a cluster the partitions return rows without the derived dimension (e.g. _crosstab), so the leader's result differs from the local plan (and, before da74b7a, panicked)")
+	}
 }
